@@ -43,6 +43,10 @@ def run(ctx):
         import c18
         ctx.guard("append-only" + tag, c18.append_only, ctx, crate, crs, tag)
         ctx.guard("chunk-stability" + tag, c18.chunk_stability, ctx, crate, crs, tag)
+        # a result that arrives late is expanded like one that arrives early: the dependencies consumer is total (no early return
+        # that depends on what other tasks have already reported) - shared with C01 / C11
+        import c11
+        ctx.guard("queued-in-consumer" + tag, c11.queued_in_consumer, ctx, crate, crs, tag)
 
 
 def upvars(ctx, crate, tag):
